@@ -734,7 +734,8 @@ class SplineParser(object):
                 "actual_notes": nom,
                 "normal_notes": den,
             }
-            dur = nom * den
+            # n%m is the reciprocal value n/m, i.e. m/n of a whole note
+            dur = nom / den
         else:
             dur = float(dur)
             key_loolup = [2**i for i in range(0, 9)]
